@@ -45,6 +45,33 @@ Solve(A, D, v, dv) ==
     LET w == MatVec(Adj3(A), v)  g == GCD(VGcd(w), Det3(A))          \* divide first: 32 bit
     IN  RatVec(VScale(D, <<w[1] \div g, w[2] \div g, w[3] \div g>>), (Det3(A) \div g) * dv)
 
+(* hkl straight from the beams (the coordinate-graph route wavelength -> Qx,Qy,Qz -> Q_vec   *)
+(* -> hkl_vec -> h,k,l):  Q/(2 pi) = (e_i - e_f)/lambda, hence                                *)
+(*   lambda * hkl = Solve(R UB, e_i - e_f)       (a rational vector; the harness divides by   *)
+(* the wavelength).                                                                          *)
+HklTimesLambda(qr, qu, B, b1, b2) ==
+    Solve(RUBNum(qr, qu, B), RUBDen(qr, qu), QDirN(b1, b2), QDirD(b1, b2))
+
+(* beams of the graph-route cases (exported by QVecCases, quantified over by QVecHkl!GraphRoute) *)
+GInc == { [v |-> <<0, 0, 1>>, n |-> 1], [v |-> <<2, -1, 2>>, n |-> 3] }
+GSc  == { [v |-> <<1, 0, 0>>, n |-> 1], [v |-> <<0, 0, 1>>, n |-> 1], [v |-> <<1, 2, 2>>, n |-> 3],
+          [v |-> <<0, -3, 4>>, n |-> 5], [v |-> <<-2, 2, -1>>, n |-> 3] }
+
+(* ---- operand forms of one call: how the same mathematical case may be supplied            *)
+(*   wavelength dtype (integer-typed wavelengths are exact rationals like any float), unit    *)
+(*   (Q comes out in its reciprocal), layout relative to the detector dim; the two beams in   *)
+(*   the same or different length units (only directions matter);  Qx/Qy/Qz handed to the     *)
+(*   reassembly with their dims listed in different orders;                                   *)
+(*   hkl: Q and UB in the same or in different reciprocal length units (hkl then carries a    *)
+(*   scale in its unit: value * scale is the index), R / U / B one matrix each or one per     *)
+(*   peak, and the same UB used again with another goniometer rotation.                       *)
+WlDTypes   == {"float64", "int64", "int32", "float32"}
+WlLayouts  == {"outer", "grid", "grid_transposed", "scalar"}
+RecipUnits == {"angstrom", "nm"}
+QForms     == [dtype : WlDTypes, unit : RecipUnits, layout : WlLayouts, beam_units : {"same", "mixed"},
+               element_dims : {"same_order", "mixed_order"}]
+HklVars    == {"matrix", "rotation3", "per_peak_arrays", "same_ub_other_rotation"}
+
 (* splitting a vector into components and reassembling it *)
 Split(v) == [x |-> v[1], y |-> v[2], z |-> v[3]]
 Join(c)  == <<c.x, c.y, c.z>>
